@@ -146,10 +146,11 @@ def enclosing_function(src, pos):
             continue
         # after the parameter list: optional const / noexcept / init list, then '{'
         k = close + 1
-        mm = re.match(r'\s*(?:const\b\s*)?(?:noexcept\b\s*)?(?::[^{;]*)?\{', src[k:k + 2000], re.S)
-        if not mm:
+        if not re.match(r'\s*(const\b|noexcept\b|:|\{)', src[k:k + 40]):
             continue
-        ob = k + mm.end() - 1
+        ob = body_open(src, k)
+        if ob is None:
+            continue
         try:
             cb = balanced(src, ob, '{', '}')
         except X.ExtractError:
@@ -159,17 +160,33 @@ def enclosing_function(src, pos):
     return best
 
 
+def body_open(src, k):
+    """index of the `{` opening the function body, scanning from k (just after the parameter list) over
+    `const`, `noexcept` and a constructor initialiser list (whose braces, if any, sit inside parentheses)"""
+    depth = 0
+    for j in range(k, min(len(src), k + 4000)):
+        c = src[j]
+        if c == '(':
+            depth += 1
+        elif c == ')':
+            depth -= 1
+        elif depth == 0 and c == ';':
+            return None
+        elif depth == 0 and c == '{':
+            return j
+    return None
+
+
 def function_bodies(src, cls, fn):
     """all out-of-line definitions `cls[<..>]::fn(params) [const] [: init] { body }` -> list of (params, init, body, line)"""
     out = []
     for m in re.finditer(r'\b' + re.escape(cls) + r'\s*(?:<[^<>;{}()]*>)?\s*::\s*' + re.escape(fn) + r'\s*\(', src):
         close = balanced(src, m.end() - 1)
-        mm = re.match(r'\s*(?:const\b\s*)?(?:noexcept\b\s*)?(:[^{;]*)?\{', src[close + 1:close + 3000], re.S)
-        if not mm:
+        ob = body_open(src, close + 1)
+        if ob is None or not re.match(r'\s*(const\b|noexcept\b|:|\{)', src[close + 1:close + 40]):
             continue
-        ob = close + 1 + mm.end() - 1
         cb = balanced(src, ob, '{', '}')
-        out.append((src[m.end():close], mm.group(1) or '', src[ob:cb + 1], X.lineno(src, m.start())))
+        out.append((src[m.end():close], src[close + 1:ob], src[ob:cb + 1], X.lineno(src, m.start())))
     return out
 
 
@@ -287,12 +304,37 @@ def ctor_checks():
             if not re.search(r'\bdouble\s+(discount|d)\b', params):
                 continue
             found = True
-            checked = bool(re.search(r'\bsetDiscount\s*\(', body)) or bool(re.search(r'if\s*\([^)]*discount[^)]*\)\s*\{?\s*throw', body))
+            checked = bool(re.search(r'\bsetDiscount\s*\(', body)) or bool(re.search(r'if\s*\([^;{}]*\bdiscount_?\b[^;{}]*\)\s*\{?\s*throw', body))
             if not checked and not re.search(r'discount_\s*\(', init):
                 raise X.ExtractError(f'{rel}:{ln}: {cls} constructor neither validates nor stores the discount')
             rows.append((key, checked, rel, ln))
         if not found:
             raise X.ExtractError(f'{rel}: constructor of {cls} taking a discount not found')
+    return rows
+
+
+# ------------------------------------------------------------------ 4b. sparse 3D setters: is what gets STORED re-validated?
+RECHECK_SITES = [
+    ('SparseModel', 'setTransitionFunction', 'include/AIToolbox/MDP/SparseModel.hpp', 'MDP_SparseModel_setT3D'),
+    ('SparseModel', 'setObservationFunction', 'include/AIToolbox/POMDP/SparseModel.hpp', 'POMDP_SparseModel_setO3D'),
+]
+
+
+def sparse_rechecks():
+    """True when, after the last `.insert(` of the 3D-container overload, the body tests `!isProbability(<sparse temp>)`
+    and throws, i.e. the rows as stored (entries <= tolerance dropped) are validated too."""
+    rows = []
+    for cls, fn, rel, key in RECHECK_SITES:
+        src = X.strip_comments(X.read(rel))
+        defs = [d for d in function_bodies(src, cls, fn) if re.search(r'const\s+(T|ObFun)\s*&', d[0])]
+        if len(defs) != 1:
+            raise X.ExtractError(f'{rel}: expected one 3D-container overload of {cls}::{fn}, found {len(defs)}')
+        params, init, body, ln = defs[0]
+        ins = [m.end() for m in re.finditer(r'\.\s*insert\s*\(', body)]
+        if not ins:
+            raise X.ExtractError(f'{rel}:{ln}: {cls}::{fn} no longer inserts entries')
+        tail = body[ins[-1]:]
+        rows.append((key, bool(re.search(r'if\s*\(\s*!\s*isProbability\s*\(\s*\w+\s*\)\s*\)\s*\{?\s*throw', tail)), rel, ln))
     return rows
 
 
@@ -330,6 +372,7 @@ def gen_guards():
     order = validate_first()
     ctors = ctor_checks()
     amdp, arel, aln = amdp_guarded()
+    rechecks = sparse_rechecks()
     b = lambda x: 'true' if x else 'false'
     L = ['/- GENERATED by tools/extract_c06.py from the library source — do not edit. -/',
          'import AITB.Model.Guard', 'namespace AITB.Gen.Guards', 'open AITB.Guard', '',
@@ -349,6 +392,9 @@ def gen_guards():
           'def ctorChecksDiscount : List (String × Bool) := [' + ', '.join(f'("{k}", {b(v)})' for k, v, _, _ in ctors) + ']']
     for k, v, rel, ln in ctors:
         L += [f'/-- {rel}:{ln} -/', f'def ctor_{k}_checksDiscount : Bool := {b(v)}']
+    L += ['', '-- sparse 3D-container setter -> "the rows as stored (sub-threshold entries dropped) are validated again before the commit"']
+    for k, v, rel, ln in rechecks:
+        L += [f'/-- {rel}:{ln} -/', f'def recheck_{k} : Bool := {b(v)}']
     L += ['', f'/-- {arel}:{aln}: `R(s,a) /= rowsum` executed only when the row sum is non-zero -/',
           f'def amdpDenseGuardedDivide : Bool := {b(amdp)}', '', 'end AITB.Gen.Guards', '']
     X.write_if_changed('Guards', '\n'.join(L))
